@@ -100,13 +100,26 @@ theorem occOf_set (n : PyNet K) (k : String) (v : Evse K) :
 theorem contains_stations (n : PyNet K) (k : String) :
     (stationsOf n).contains k = (dictGet? n.evses k).isSome := (dictGet_isSome_iff n.evses k).symm
 
+/-- what a translated method reports to the run loop: `none`, or the model's class of the exception -/
+def coreOutcome : Except PyErr Unit → Option EventCore.Err
+  | .ok _ => none
+  | .error e => some (coreErrOfPy e)
+
+/-- writing an EVSE back under its own key with the same occupant does not change who occupies what -/
+theorem occOf_set_same (n : PyNet K) (k : String) (v v' : Evse K) (hg : dictGet? n.evses k = some v)
+    (hev : v'.ev = v.ev) : occOf { n with evses := dictSet n.evses k v' } = occOf n := by
+  rw [occOf_set]
+  funext st
+  simp only [setOcc, occOf]
+  by_cases h : st = k
+  · subst h; simp [hg, hev]
+  · simp [h]
+
 /-- `ChargingNetwork.plugin(ev)` refines `chargingNet.plugin` on the occupancy map: same outcome (plugged in /
-    `KeyError` / `StationOccupiedError`), same occupancy afterwards, same stations -/
+    `KeyError` / `StationOccupiedError`) and the same occupancy afterwards — also when it raises -/
 theorem net_plugin_tie (n : PyNet K) (ev : Ev K) (sid : Option String) :
     (chargingNet (stationsOf n)).plugin (occOf n) (Sim.sessionOf ev) =
-      match net_plugin n ev sid with
-      | .ok n' => (occOf n', none)
-      | .error e => (occOf n, some (coreErrOfPy e)) := by
+      (occOf (net_plugin n ev sid).1, coreOutcome (net_plugin n ev sid).2) := by
   show (if (stationsOf n).contains ev.station = true then
           (match occOf n ev.station with
            | some _ => (occOf n, some EventCore.Err.stationOccupied)
@@ -127,34 +140,31 @@ theorem net_plugin_tie (n : PyNet K) (ev : Ev K) (sid : Option String) :
       have := occOf_set n ev.station { v with ev := some ev }
       simp only [occOf, Option.map_some] at this
       rw [this]
-    | some e0 => rfl
+      rfl
+    | some e0 =>
+      have := occOf_set_same n ev.station v v hg rfl
+      show (occOf n, some EventCore.Err.stationOccupied) = (occOf { evses := dictSet n.evses ev.station v }, _)
+      rw [this]
+      rfl
 
-theorem net_plugin_stations (n n' : PyNet K) (ev : Ev K) (sid : Option String) (h : net_plugin n ev sid = .ok n') :
-    stationsOf n' = stationsOf n := by
-  unfold net_plugin at h
-  by_cases hs : (dictGet? n.evses ev.station).isSome = true
-  · simp only [hs, if_true] at h
-    cases hg : dictGet? n.evses ev.station with
-    | none => rw [hg] at hs; cases hs
-    | some v =>
-      rw [hg] at h
-      simp only at h
-      cases hp : evse_plugin v ev with
-      | error e => rw [hp] at h; cases h
-      | ok v' =>
-        rw [hp] at h
-        simp only at h
-        cases h
-        exact dictSet_keys _ _ _ hs
-  · simp [hs] at h
+/-- the registered stations never change -/
+theorem net_plugin_stations (n : PyNet K) (ev : Ev K) (sid : Option String) :
+    stationsOf (net_plugin n ev sid).1 = stationsOf n := by
+  unfold net_plugin
+  cases hg : dictGet? n.evses ev.station with
+  | none => rfl
+  | some v =>
+    have hs : (dictGet? n.evses ev.station).isSome = true := by rw [hg]; rfl
+    simp only [Option.isSome_some, if_true]
+    cases hp : evse_plugin v ev with
+    | mk s2 r =>
+      cases r <;> exact dictSet_keys _ _ _ hs
 
 /-- `ChargingNetwork.unplug(station_id, session_id)` with the session id the Simulator passes refines
     `chargingNet.unplug`: the EVSE is vacated exactly when its occupant has that session id -/
 theorem net_unplug_tie (n : PyNet K) (x : Session) :
     (chargingNet (stationsOf n)).unplug (occOf n) x =
-      match net_unplug n x.station (some x.id) with
-      | .ok n' => (occOf n', none)
-      | .error e => (occOf n, some (coreErrOfPy e)) := by
+      (occOf (net_unplug n x.station (some x.id)).1, coreOutcome (net_unplug n x.station (some x.id)).2) := by
   show (if (stationsOf n).contains x.station = true then
           ((match occOf n x.station with
             | some y => if y.id == x.id then setOcc (occOf n) x.station none else occOf n
@@ -179,43 +189,39 @@ theorem net_unplug_tie (n : PyNet K) (x : Session) :
       · have h1 : ¬ (some x.id = some e0.session) := by
           intro h; injection h with h; exact hid h.symm
         have h2 : (e0.session == x.id) = false := by simpa using hid
-        simp [h1, h2]
+        simp [h1, h2, coreOutcome]
 
-theorem net_unplug_stations (n n' : PyNet K) (st : String) (sid : Option String) (h : net_unplug n st sid = .ok n') :
-    stationsOf n' = stationsOf n := by
-  unfold net_unplug at h
+theorem net_unplug_stations (n : PyNet K) (st : String) (sid : Option String) :
+    stationsOf (net_unplug n st sid).1 = stationsOf n := by
+  unfold net_unplug
   cases hg : dictGet? n.evses st with
-  | none => simp [hg] at h
+  | none => rfl
   | some v =>
     have hs : (dictGet? n.evses st).isSome = true := by rw [hg]; rfl
-    simp only [hg, Option.isSome_some, if_true] at h
     have hk := dictSet_keys n.evses st (evse_unplug v) hs
+    simp only [Option.isSome_some, if_true]
     cases sid with
-    | none =>
-      simp only [Option.isNone_none, if_true] at h
-      cases h; exact hk
+    | none => exact hk
     | some id =>
-      simp only [Option.isNone_some, Bool.false_eq_true, if_false] at h
+      simp only [Option.isNone_some, Bool.false_eq_true, if_false]
       cases hv : v.ev with
-      | none => simp [hv] at h; cases h; rfl
+      | none => rfl
       | some e0 =>
-        simp only [hv, Option.isNone_some, Bool.false_eq_true, if_false] at h
+        simp only [Option.isNone_some, Bool.false_eq_true, if_false]
         by_cases hid : (some id = some e0.session)
-        · simp only [hid, decide_true, if_true] at h
-          cases h; exact hk
-        · simp only [hid, decide_false, Bool.false_eq_true, if_false] at h
-          cases h; rfl
+        · simp only [hid, decide_true, if_true]; exact hk
+        · simp only [hid, decide_false, Bool.false_eq_true, if_false]
 
 /-- without a session id (deprecated form) the EVSE is vacated unconditionally -/
 theorem net_unplug_none (n : PyNet K) (st : String) (h : (stationsOf n).contains st = true) :
-    ∃ n', net_unplug n st none = .ok n' ∧ occOf n' = setOcc (occOf n) st none ∧ stationsOf n' = stationsOf n := by
+    (net_unplug n st none).2 = .ok () ∧ occOf (net_unplug n st none).1 = setOcc (occOf n) st none := by
   unfold net_unplug
   have hs : (dictGet? n.evses st).isSome = true := by rw [← contains_stations]; exact h
   cases hg : dictGet? n.evses st with
   | none => rw [hg] at hs; cases hs
   | some v =>
     simp only [Option.isSome_some, if_true, Option.isNone_none]
-    refine ⟨_, rfl, ?_, dictSet_keys _ _ _ hs⟩
+    refine ⟨by first | rfl | trivial, ?_⟩
     have := occOf_set n st (evse_unplug v)
     simpa [evse_unplug] using this
 
